@@ -46,3 +46,12 @@ impl From<u8> for Code {
         }
     }
 }
+
+/// Hooks for out-of-tree proof harnesses (feature `verif-hooks`): public
+/// wrappers around the private codec and parser kernels.
+#[cfg(feature = "verif-hooks")]
+#[allow(missing_docs)]
+pub mod verif_hooks {
+    pub use super::export::verif_hooks::*;
+    pub use super::import::verif_hooks::*;
+}
